@@ -331,7 +331,7 @@ Opened(id) ==
 \* logical content of the database opened from checkpoint id (or Panic)
 Restored(id) ==
   LET o == Opened(id)
-  IN IF ~o.ok THEN Panic ELSE [k \in Keys |-> GetResult(o.st.mem, o.lv, k)]
+  IN [ok |-> o.ok, m |-> [k \in Keys |-> IF o.ok THEN GetResult(o.st.mem, o.lv, k) ELSE Tomb]]
 
 \* abandon the process and open a new database from a returned, retained handle
 Reopen(id, crash) ==
@@ -396,7 +396,8 @@ ScanOK == (rd.on /\ rd.kind = "scan") => ScanValue = [k \in rd.arg |-> oracle[k]
 \* the retained checkpoints named by the saved document
 Retained == {files.doc[i].id : i \in 1..Len(files.doc)}
 \* C08: from the moment a handle is returned, for as long as it is retained
-RestoreOK == \A id \in returned \cap Retained : Restored(id) = snapAt[id]
+RestoreBad == \E id \in returned \cap Retained : LET r == Restored(id) IN (~r.ok) \/ r.m # snapAt[id]
+RestoreOK == ~RestoreBad
 
 \* C09 (files half): everything a retained checkpoint document names exists
 \* with the content it had when the checkpoint was taken
@@ -417,6 +418,11 @@ WalReclaimed == [][nrt' = nrt + 1 =>
 
 \* sequence numbers: the level list never claims more than was written
 SeqOK == latest <= seq
+
+\* counterexample export (used with Dev_* = TRUE): print the history of every bad state
+LastBad == Len(hist) > 0 /\ LET h == hist[Len(hist)]
+                            IN h.a \in {"GetEnd", "ScanEnd"} /\ h.predicted # h.demanded
+CexDump == (LastBad \/ RestoreBad \/ ~FilesSafe \/ ~LiveTablesExist) => PrintT(<<"BEHAVIOUR", ToJson(hist)>>)
 
 Dump == (Len(hist) >= MaxLen \/ ~ENABLED Next) => PrintT(<<"BEHAVIOUR", ToJson(hist)>>)
 =============================================================================
